@@ -10,7 +10,7 @@ SRCS = ["alg/sha256.c", "alg/sha1.c", "alg/md5.c", "alg/sha256_shani.c", "alg/sh
         "cpusupport/cpusupport_x86_aesni.c", "cpusupport/cpusupport_x86_shani.c", "cpusupport/cpusupport_x86_sse2.c",
         "cpusupport/cpusupport_x86_ssse3.c",
         "util/insecure_memzero.c", "util/warnp.c"]
-LDFLAGS = ["-Wl,--wrap=malloc,--wrap=free,--wrap=strdup,--wrap=fopen", "-lcrypto"]
+LDFLAGS = ["-Wl,--wrap=malloc,--wrap=free,--wrap=strdup,--wrap=realloc,--wrap=fopen", "-lcrypto"]
 P = (1 << 2048) - 1
 
 
@@ -221,4 +221,4 @@ def check(ctx):
                      "every other block released while a secret is armed is inspected (sanitizer build: by anyone, -O2 build: by the library)",
                      "stack copies and registers are outside the statement"],
         trusted=["pmodel (compiled Lean model)", "tools/extractors/c20.py (statement lists of the clean-up code, regenerated each run)",
-                 "harness/h_wipe.c (link-time malloc/free/strdup/fopen wrappers, OpenSSL allocator hooks, __sanitizer_free_hook)"])
+                 "harness/h_wipe.c (link-time malloc/free/realloc/strdup/fopen wrappers, OpenSSL allocator hooks, __sanitizer_free_hook)"])
